@@ -285,3 +285,19 @@ func VerifH05a() {
 	nd.Assert(nd.And(gerr == nil, got.ContentId == "new"), "H05a.new-write-wins-after-reopen")
 	nd.Reach("H05a.end")
 }
+
+// VerifRaceSelfTest2: monitor self-test on the registry (omap under its RWMutex): no report expected
+// for Store/Delete/Load from two threads (Oldest is the one that iterates without the lock).
+func VerifRaceSelfTest2() {
+	nd.SetPreemptionBound(2)
+	reg := txrepo.New()
+	ctx := context.Background()
+	go func() {
+		_ = reg.Store(ctx, model.Transaction{Id: verifT2, Seq: 2})
+		_, _ = reg.Delete(ctx, verifT2)
+	}()
+	_ = reg.Store(ctx, model.Transaction{Id: verifT1, Seq: 1})
+	_, _ = reg.Get(ctx, verifT1)
+	_, _ = reg.Delete(ctx, verifT1)
+	nd.JoinAll()
+}
